@@ -1106,27 +1106,31 @@ Lemma fetch_token_attempts p cn tb tsc t0 :
 Proof. unfold fetch_token. cbn [k_trace]. apply round_trip_attempts. Qed.
 
 (* every attempt of the token request carries the whole form (as far as the service reads it) *)
-Lemma fetch_token_bodies p cn tb tsc t0 :
-  wf_body tb -> bodies_ok tb tsc 0 (attempts (k_trace (fetch_token p cn tb tsc t0))).
+Lemma fetch_token_bodies_gen p cn tb tsc0 kbase t0 :
+  wf_body tb -> bodies_ok tb tsc0 kbase (attempts (k_trace (fetch_token p cn tb (skipn kbase tsc0) t0))).
 Proof.
   intro Hwf. unfold fetch_token. cbn [k_trace].
-  destruct (round_trip_bodies_gen p cn tb tsc 0%nat (init_state tb) t0 Hwf eq_refl) as (B & _). exact B.
+  destruct (round_trip_bodies_gen p cn tb tsc0 kbase (init_state tb) t0 Hwf eq_refl) as (B & _). exact B.
 Qed.
+
+Lemma fetch_token_bodies p cn tb tsc t0 :
+  wf_body tb -> bodies_ok tb tsc 0 (attempts (k_trace (fetch_token p cn tb tsc t0))).
+Proof. exact (fetch_token_bodies_gen p cn tb tsc 0%nat t0). Qed.
 
 Lemma token_ok_not_ctx r : token_ok r = true -> r <> RCtx.
 Proof. destruct r; cbn; congruence. Qed.
 Lemma token_error_ctx r : r = RCtx -> token_error r = RCtx.
 Proof. intros ->. reflexivity. Qed.
 
-Lemma auth_do_tok_attempts p cn bd sc tb tsc :
-  let a := auth_do_tok p cn bd sc tb tsc in
+Lemma auth_do_tok_at_attempts p cn bd sc tb tsc t0 :
+  let a := auth_do_tok_at p cn bd sc tb tsc t0 in
   1 <= Z.of_nat (length (attempts (ak_first a))) <= maxr p + 1 /\
   Z.of_nat (length (attempts (ak_token a))) <= maxr p + 1 /\
   Z.of_nat (length (attempts (ak_second a))) <= maxr p + 1.
 Proof.
-  unfold auth_do_tok.
-  pose proof (round_trip_attempts p cn bd (init_state bd) sc 0) as H1. cbv zeta in H1.
-  set (o1 := round_trip p cn bd (init_state bd) sc 0) in *.
+  unfold auth_do_tok_at.
+  pose proof (round_trip_attempts p cn bd (init_state bd) sc t0) as H1. cbv zeta in H1.
+  set (o1 := round_trip p cn bd (init_state bd) sc t0) in *.
   assert (Hm : 0 <= maxr p + 1) by (unfold maxr; lia).
   destruct (challenged (o_res o1));
     [|cbn [ak_first ak_token ak_second attempts length]; repeat split; try apply H1; exact Hm].
@@ -1142,55 +1146,84 @@ Proof.
   pose proof (round_trip_attempts p cn bd st2 (o_script o1) (k_time k)) as H2. cbv zeta in H2. apply H2.
 Qed.
 
-(* the registry's requests: first send and re-send carry the whole body; the token service's
-   requests carry the whole form *)
-Lemma auth_do_tok_bodies p cn bd sc tb tsc :
-  wf_body bd -> wf_body tb ->
+Lemma auth_do_tok_attempts p cn bd sc tb tsc :
   let a := auth_do_tok p cn bd sc tb tsc in
-  bodies_ok bd sc 0 (attempts (ak_first a) ++ attempts (ak_second a)) /\
-  bodies_ok tb tsc 0 (attempts (ak_token a)).
+  1 <= Z.of_nat (length (attempts (ak_first a))) <= maxr p + 1 /\
+  Z.of_nat (length (attempts (ak_token a))) <= maxr p + 1 /\
+  Z.of_nat (length (attempts (ak_second a))) <= maxr p + 1.
+Proof. exact (auth_do_tok_at_attempts p cn bd sc tb tsc 0). Qed.
+
+(* the registry's requests: first send and re-send carry the whole body; the token service's
+   requests carry the whole form ([base], [kbase]: requests the registry / the token service
+   saw before) *)
+Lemma auth_do_tok_at_bodies_gen p cn bd sc0 base tb tsc0 kbase t0 :
+  wf_body bd -> wf_body tb ->
+  let a := auth_do_tok_at p cn bd (skipn base sc0) tb (skipn kbase tsc0) t0 in
+  bodies_ok bd sc0 base (attempts (ak_first a) ++ attempts (ak_second a)) /\
+  bodies_ok tb tsc0 kbase (attempts (ak_token a)).
 Proof.
-  intros Hwf Hwt. unfold auth_do_tok.
-  destruct (round_trip_bodies_gen p cn bd sc 0%nat (init_state bd) 0 Hwf eq_refl) as (B1 & S1 & N1).
-  cbn [skipn] in *.
-  set (o1 := round_trip p cn bd (init_state bd) sc 0) in *.
-  assert (Hnil : bodies_ok tb tsc 0 []) by (intros i t g Hi; destruct i; discriminate).
+  intros Hwf Hwt. unfold auth_do_tok_at.
+  destruct (round_trip_bodies_gen p cn bd sc0 base (init_state bd) t0 Hwf eq_refl) as (B1 & S1 & N1).
+  set (sc := skipn base sc0) in *. set (tsc := skipn kbase tsc0) in *.
+  set (o1 := round_trip p cn bd (init_state bd) sc t0) in *.
+  assert (Hnil : bodies_ok tb tsc0 kbase []) by (intros i t g Hi; destruct i; discriminate).
   destruct (challenged (o_res o1));
     [|cbn [ak_first ak_token ak_second attempts]; rewrite app_nil_r; split; assumption].
-  assert (Hk : bodies_ok tb tsc 0 (attempts (k_trace
+  assert (Hk : bodies_ok tb tsc0 kbase (attempts (k_trace
              (if bearer_challenged (o_res o1) then fetch_token p cn tb tsc (o_time o1)
               else mkTok true (o_res o1) [] (o_time o1) tsc)))).
-  { destruct (bearer_challenged (o_res o1)); [apply fetch_token_bodies; exact Hwt|exact Hnil]. }
+  { destruct (bearer_challenged (o_res o1)); [apply fetch_token_bodies_gen; exact Hwt|exact Hnil]. }
   set (k := if bearer_challenged (o_res o1) then fetch_token p cn tb tsc (o_time o1)
             else mkTok true (o_res o1) [] (o_time o1) tsc) in *.
   destruct (k_ok k); [|cbn [ak_first ak_token ak_second attempts]; rewrite app_nil_r; split; assumption].
   destruct (rewind bd (o_st o1)) as [st2| |] eqn:Hrw; cbn [ak_first ak_token ak_second attempts];
     try (rewrite app_nil_r; split; assumption).
   assert (Hf : s_rest st2 = bdata bd) by (eapply rewind_fresh; eauto).
-  cbn [Nat.add] in S1. rewrite S1.
-  destruct (round_trip_bodies_gen p cn bd sc (length (attempts (o_trace o1))) st2 (k_time k) Hwf Hf)
+  rewrite S1.
+  destruct (round_trip_bodies_gen p cn bd sc0 (base + length (attempts (o_trace o1))) st2 (k_time k) Hwf Hf)
     as (B2 & _ & _).
   split; [apply bodies_ok_app; assumption|exact Hk].
 Qed.
 
-(* a body that cannot be replayed: one request to the registry, whatever the token service does *)
-Lemma auth_do_tok_not_replayable p cn bd sc tb tsc :
-  (forall st', rewind bd st' = RwNoGetBody \/ rewind bd st' = RwGetBodyErr) ->
+Lemma auth_do_tok_bodies p cn bd sc tb tsc :
+  wf_body bd -> wf_body tb ->
   let a := auth_do_tok p cn bd sc tb tsc in
+  bodies_ok bd sc 0 (attempts (ak_first a) ++ attempts (ak_second a)) /\
+  bodies_ok tb tsc 0 (attempts (ak_token a)).
+Proof. exact (auth_do_tok_at_bodies_gen p cn bd sc 0%nat tb tsc 0%nat 0). Qed.
+
+(* a body that cannot be replayed: one request to the registry, whatever the token service does *)
+Lemma auth_do_tok_at_not_replayable p cn bd sc tb tsc t0 :
+  (forall st', rewind bd st' = RwNoGetBody \/ rewind bd st' = RwGetBodyErr) ->
+  let a := auth_do_tok_at p cn bd sc tb tsc t0 in
   length (attempts (ak_first a)) = 1%nat /\ ak_second a = [].
 Proof.
-  intro Hrw. unfold auth_do_tok.
-  destruct (round_trip_not_replayable p cn bd (init_state bd) sc 0 Hrw)
+  intro Hrw. unfold auth_do_tok_at.
+  destruct (round_trip_not_replayable p cn bd (init_state bd) sc t0 Hrw)
     as (bh & sc' & got & st1 & o & t1 & _ & _ & Htr & _).
-  set (o1 := round_trip p cn bd (init_state bd) sc 0) in *.
+  set (o1 := round_trip p cn bd (init_state bd) sc t0) in *.
   destruct (challenged (o_res o1)); [|cbn [ak_first ak_second]; rewrite Htr; auto].
   destruct (k_ok _); [|cbn [ak_first ak_second]; rewrite Htr; auto].
   destruct (Hrw (o_st o1)) as [E|E]; rewrite E; cbn [ak_first ak_second]; rewrite Htr; auto.
 Qed.
 
+Lemma auth_do_tok_not_replayable p cn bd sc tb tsc :
+  (forall st', rewind bd st' = RwNoGetBody \/ rewind bd st' = RwGetBodyErr) ->
+  let a := auth_do_tok p cn bd sc tb tsc in
+  length (attempts (ak_first a)) = 1%nat /\ ak_second a = [].
+Proof. exact (auth_do_tok_at_not_replayable p cn bd sc tb tsc 0). Qed.
+
 (* cancellation: in every send to the registry and in the token request every attempt but the
    first starts before the context ends; the call is over when the context ends; a pause of
    any of them that the context ends in ends Do with the context's error at that instant *)
+Definition authk_cancel_post_at (tc t0 : Z) (res : result) (time : Z) (a : authk_out) : Prop :=
+  Forall (fun x => fst x < tc) (tl (attempts (ak_first a))) /\
+  Forall (fun x => fst x < tc) (tl (attempts (ak_token a))) /\
+  Forall (fun x => fst x < tc) (tl (attempts (ak_second a))) /\
+  ak_time a <= Z.max t0 tc /\
+  Forall (fun pd => fst pd + snd pd < tc \/ (res = RCtx /\ time = Z.max (fst pd) tc))
+         (pauses (ak_first a) ++ pauses (ak_token a) ++ pauses (ak_second a)).
+
 Definition authk_cancel_post (tc : Z) (a : authk_out) : Prop :=
   Forall (fun x => fst x < tc) (tl (attempts (ak_first a))) /\
   Forall (fun x => fst x < tc) (tl (attempts (ak_token a))) /\
@@ -1199,12 +1232,13 @@ Definition authk_cancel_post (tc : Z) (a : authk_out) : Prop :=
   Forall (fun pd => fst pd + snd pd < tc \/ (ak_res a = RCtx /\ ak_time a = Z.max (fst pd) tc))
          (pauses (ak_first a) ++ pauses (ak_token a) ++ pauses (ak_second a)).
 
-Lemma auth_do_tok_cancel p bd sc tb tsc tc dl :
-  authk_cancel_post tc (auth_do_tok p (Some (tc, dl)) bd sc tb tsc).
+Lemma auth_do_tok_at_cancel p bd sc tb tsc t0 tc dl :
+  let a := auth_do_tok_at p (Some (tc, dl)) bd sc tb tsc t0 in
+  authk_cancel_post_at tc t0 (ak_res a) (ak_time a) a.
 Proof.
-  unfold auth_do_tok, authk_cancel_post.
-  pose proof (round_trip_cancel p bd (init_state bd) sc 0 tc dl) as C1.
-  set (o1 := round_trip p (Some (tc, dl)) bd (init_state bd) sc 0) in *.
+  unfold auth_do_tok_at, authk_cancel_post_at.
+  pose proof (round_trip_cancel p bd (init_state bd) sc t0 tc dl) as C1.
+  set (o1 := round_trip p (Some (tc, dl)) bd (init_state bd) sc t0) in *.
   destruct (challenged (o_res o1)) eqn:Hch.
   2:{ cbn [ak_first ak_token ak_second ak_res ak_time attempts pauses tl]. rewrite !app_nil_r.
       destruct C1 as (A1 & T1 & P1 & _). repeat split; auto. }
@@ -1241,6 +1275,10 @@ Proof.
     apply Forall_app. split; [apply pauses_done_weaken; exact D1|exact P2].
 Qed.
 
+Lemma auth_do_tok_cancel p bd sc tb tsc tc dl :
+  authk_cancel_post tc (auth_do_tok p (Some (tc, dl)) bd sc tb tsc).
+Proof. exact (auth_do_tok_at_cancel p bd sc tb tsc 0 tc dl). Qed.
+
 (* the model used so far (token request served at once) is this one with a token service
    that answers 200 immediately, for a policy that does not retry that answer *)
 Lemma generic_retry_stop p attempt o : p_pred p o = PStop -> generic_retry p attempt o = DStop.
@@ -1252,7 +1290,7 @@ Lemma auth_do_tok_instant p bd sc tb :
   let k := auth_do_tok p None bd sc tb [] in
   ak_res k = a_res a /\ ak_first k = a_first a /\ ak_second k = a_second a /\ ak_time k = a_time a.
 Proof.
-  intro Hp. unfold auth_do, auth_do_at, auth_do_tok.
+  intro Hp. unfold auth_do, auth_do_at, auth_do_tok, auth_do_tok_at.
   set (o1 := round_trip p None bd (init_state bd) sc 0).
   destruct (challenged (o_res o1)); [|cbn; auto].
   assert (Hk : forall t0, k_ok (fetch_token p None tb [] t0) = true /\ k_time (fetch_token p None tb [] t0) = t0).
@@ -1366,7 +1404,7 @@ Lemma auth_do_tok_refines_spec p bd sc tb tsc :
   (ak_res a, ak_time a, attempts (ak_first a), attempts (ak_token a), attempts (ak_second a))
   = spec_auth p bd sc tb tsc.
 Proof.
-  intros Hwf Hrep Hwt Hrt. unfold auth_do_tok, spec_auth.
+  intros Hwf Hrep Hwt Hrt. unfold auth_do_tok, auth_do_tok_at, spec_auth.
   pose proof (round_trip_refines_spec_st p bd sc 0 (init_state bd) Hwf Hrep eq_refl) as E1. cbv zeta in E1.
   destruct (round_trip_bodies_gen p None bd sc 0%nat (init_state bd) 0 Hwf eq_refl) as (_ & S1 & N1).
   cbn [skipn Nat.add] in S1, N1.
@@ -1410,3 +1448,124 @@ Lemma status_constants :
   blob_put_status_cmps = [(1, 201)] /\ manifest_push_status_cmps = [(1, 201)] /\
   blob_mount_status_cmps = [(0, 201); (1, 202)].
 Proof. repeat split; reflexivity. Qed.
+
+(* ------------------------------------------------------------------ *)
+(* blob push / mount fallback with the token requests spelled out *)
+
+Lemma plain_tok_at_bodies_gen p cn bd sc0 base t0 :
+  wf_body bd ->
+  bodies_ok bd sc0 base (authk_attempts (plain_tok_at p cn bd (skipn base sc0) t0)).
+Proof.
+  intro Hwf. unfold plain_tok_at, authk_attempts. cbn [ak_first ak_second attempts]. rewrite app_nil_r.
+  destruct (round_trip_bodies_gen p cn bd sc0 base (init_state bd) t0 Hwf eq_refl) as (B1 & _ & _). exact B1.
+Qed.
+
+(* every request of the PUT carries the blob as far as the registry reads it, at the script
+   position after the POST's requests; every token request of the push (the POST's and the
+   PUT's) carries the whole form, at the token service's script position *)
+Lemma blob_push_tok_bodies authc p cn bd sc tb tsc :
+  wf_body bd -> wf_body tb ->
+  let u := blob_push_tok authc p cn bd sc tb tsc in
+  bodies_ok tb tsc 0 (attempts (ak_token (uk_post u))) /\
+  match uk_put u with
+  | Some put =>
+    bodies_ok bd sc (length (authk_attempts (uk_post u))) (authk_attempts put) /\
+    bodies_ok tb tsc (length (attempts (ak_token (uk_post u)))) (attempts (ak_token put))
+  | None => True
+  end.
+Proof.
+  intros Hwf Hwt. unfold blob_push_tok.
+  assert (Hnb : wf_body no_body) by (intros _; reflexivity).
+  assert (Hnil : forall b, bodies_ok tb tsc b []) by (intros b i t g Hi; destruct i; discriminate).
+  assert (Hpost : bodies_ok tb tsc 0 (attempts (ak_token
+            (if authc then auth_do_tok_at p cn no_body sc tb tsc 0 else plain_tok_at p cn no_body sc 0)))).
+  { destruct authc.
+    - exact (proj2 (auth_do_tok_at_bodies_gen p cn no_body sc 0%nat tb tsc 0%nat 0 Hnb Hwt)).
+    - cbn [plain_tok_at ak_token attempts]. apply Hnil. }
+  set (post := if authc then auth_do_tok_at p cn no_body sc tb tsc 0 else plain_tok_at p cn no_body sc 0) in *.
+  destruct (accepted (ak_res post)); cbn [uk_post uk_put]; [|split; [exact Hpost|exact I]].
+  split; [exact Hpost|].
+  destruct (authc && negb match attempts (ak_second post) with [] => false | _ :: _ => true end).
+  - apply auth_do_tok_at_bodies_gen; assumption.
+  - split; [apply plain_tok_at_bodies_gen; exact Hwf|].
+    cbn [plain_tok_at ak_token attempts]. apply Hnil.
+Qed.
+
+(* a blob that cannot be replayed (one-shot reader, mount fallback) goes out in exactly one PUT
+   request, whatever registry and token service answer *)
+Lemma blob_push_tok_not_replayable authc p cn bd sc tb tsc :
+  (forall st', rewind bd st' = RwNoGetBody \/ rewind bd st' = RwGetBodyErr) ->
+  match uk_put (blob_push_tok authc p cn bd sc tb tsc) with
+  | Some put => length (authk_attempts put) = 1%nat
+  | None => True
+  end.
+Proof.
+  intro Hrw. unfold blob_push_tok.
+  set (post := if authc then auth_do_tok_at p cn no_body sc tb tsc 0 else plain_tok_at p cn no_body sc 0).
+  destruct (accepted (ak_res post)); cbn [uk_put]; [|exact I].
+  set (sc' := skipn (length (authk_attempts post)) sc).
+  set (tsc' := skipn (length (attempts (ak_token post))) tsc).
+  destruct (authc && negb match attempts (ak_second post) with [] => false | _ :: _ => true end).
+  - destruct (auth_do_tok_at_not_replayable p cn bd sc' tb tsc' (ak_time post) Hrw) as (L & E).
+    unfold authk_attempts. rewrite E. cbn [attempts]. rewrite app_nil_r. exact L.
+  - destruct (round_trip_not_replayable p cn bd (init_state bd) sc' (ak_time post) Hrw)
+      as (bh & sc'' & got & st1 & o & t1 & _ & _ & Htr & _).
+    unfold plain_tok_at, authk_attempts. cbn [ak_first ak_second attempts]. rewrite Htr. reflexivity.
+Qed.
+
+Lemma plain_tok_at_cancel p bd sc t0 tc dl :
+  let a := plain_tok_at p (Some (tc, dl)) bd sc t0 in
+  authk_cancel_post_at tc t0 (ak_res a) (ak_time a) a.
+Proof.
+  unfold plain_tok_at, authk_cancel_post_at. cbn [ak_first ak_token ak_second ak_res ak_time attempts pauses tl].
+  destruct (round_trip_cancel p bd (init_state bd) sc t0 tc dl) as (A1 & T1 & P1 & _).
+  rewrite !app_nil_r. repeat split; auto.
+Qed.
+
+Lemma authk_pauses_done tc t0 a :
+  authk_cancel_post_at tc t0 (ak_res a) (ak_time a) a -> ak_res a <> RCtx ->
+  Forall (fun pd => fst pd + snd pd < tc) (pauses (ak_first a) ++ pauses (ak_token a) ++ pauses (ak_second a)).
+Proof.
+  intros (_ & _ & _ & _ & Hp) Hne. eapply Forall_impl; [|exact Hp].
+  intros pd [A|[A _]]; [exact A|congruence].
+Qed.
+
+(* cancellation of a push: POST, PUT and both token requests *)
+Lemma blob_push_tok_cancel authc p bd sc tb tsc tc dl :
+  let u := blob_push_tok authc p (Some (tc, dl)) bd sc tb tsc in
+  authk_cancel_post_at tc 0 (uk_res u) (uk_time u) (uk_post u) /\
+  uk_time u <= Z.max 0 tc /\
+  match uk_put u with
+  | Some put => exists t1, t1 <= Z.max 0 tc /\ authk_cancel_post_at tc t1 (uk_res u) (uk_time u) put
+  | None => True
+  end.
+Proof.
+  unfold blob_push_tok.
+  assert (Hpost : let post := if authc then auth_do_tok_at p (Some (tc, dl)) no_body sc tb tsc 0
+                              else plain_tok_at p (Some (tc, dl)) no_body sc 0 in
+                  authk_cancel_post_at tc 0 (ak_res post) (ak_time post) post).
+  { destruct authc; [apply auth_do_tok_at_cancel|apply plain_tok_at_cancel]. }
+  cbv zeta in Hpost.
+  set (post := if authc then auth_do_tok_at p (Some (tc, dl)) no_body sc tb tsc 0
+               else plain_tok_at p (Some (tc, dl)) no_body sc 0) in *.
+  destruct (accepted (ak_res post)) eqn:Hacc; cbn [uk_res uk_time uk_post uk_put].
+  2:{ split; [exact Hpost|]. split; [|exact I]. destruct Hpost as (_ & _ & _ & T & _). exact T. }
+  pose proof (authk_pauses_done _ _ _ Hpost (accepted_not_ctx _ Hacc)) as Dp.
+  destruct Hpost as (A1 & A2 & A3 & Tp & _).
+  set (sc' := skipn (length (authk_attempts post)) sc).
+  set (tsc' := skipn (length (attempts (ak_token post))) tsc).
+  assert (Hput : let put := if authc && negb match attempts (ak_second post) with [] => false | _ :: _ => true end
+                            then auth_do_tok_at p (Some (tc, dl)) bd sc' tb tsc' (ak_time post)
+                            else plain_tok_at p (Some (tc, dl)) bd sc' (ak_time post) in
+                 authk_cancel_post_at tc (ak_time post) (ak_res put) (ak_time put) put).
+  { destruct (authc && negb match attempts (ak_second post) with [] => false | _ :: _ => true end);
+      [apply auth_do_tok_at_cancel|apply plain_tok_at_cancel]. }
+  cbv zeta in Hput.
+  set (put := if authc && negb match attempts (ak_second post) with [] => false | _ :: _ => true end
+              then auth_do_tok_at p (Some (tc, dl)) bd sc' tb tsc' (ak_time post)
+              else plain_tok_at p (Some (tc, dl)) bd sc' (ak_time post)) in *.
+  split; [|split].
+  - repeat split; auto. apply pauses_done_weaken. exact Dp.
+  - destruct Hput as (_ & _ & _ & T & _). lia.
+  - exists (ak_time post). split; [exact Tp|exact Hput].
+Qed.
